@@ -209,6 +209,10 @@ func evmCases(c *ctx, only string) {
 		if obs.LockupBefore == "0/0/0" {
 			c.rep.Fail("evm/harness", "lockup record was not readable before the transaction", cj)
 		}
+		if sh != "claim-ok" && (obs.ETXs != 0 || obs.DelHashes != 0 || obs.DelMap != 0) {
+			// the only claim sits in a frame that failed (or inside one): the EVM side lists must be as at entry
+			c.rep.Fail("evm-lists-not-restored/"+sh, fmt.Sprintf("after the reverted frame ETXCache=%d CoinbaseDeletedHashes=%d CoinbasesDeleted=%d (all 0 at entry)", obs.ETXs, obs.DelHashes, obs.DelMap), cj)
+		}
 		if gone != paid {
 			c.rep.Fail("f9-lockup-claim-reverted/"+sh, fmt.Sprintf("lockup record gone=%v but payout ETXs in cache=%d (record before %s, after %s; deleted-hashes=%d undo-map=%d)", gone, obs.ETXs, obs.LockupBefore, obs.LockupInDB, obs.DelHashes, obs.DelMap), cj)
 		}
